@@ -5,7 +5,7 @@
      (gkndt from the propagated rho and the same W, threshold, hop_to_it); time += dt.
    It only wires together Hop.v, Propagate.v and Hopper.v in the order the code uses them. *)
 From Coq Require Import ZArith List Bool Arith.
-From MV Require Import Ops Vec Cplx Mat Poisson Hop Hopper Propagate.
+From MV Require Import Ops Vec Cplx Mat Poisson Hop Hopper Propagate Ehrenfest Cumulative.
 Import ListNotations.
 
 Section Traj.
@@ -40,3 +40,59 @@ Section Traj.
         (mkT x1 v2 rho1 a' (oadd O (ptime s) dt), W, hp, Some (t, acc))
     end.
 End Traj.
+
+(* ---- the same pass for the classes that override parts of it ---- *)
+Section TrajX.
+  Context {T : Type} (O : Ops T).
+
+  (* Ehrenfest: the force is the population-weighted one of ehrenfest.py, evaluated with the density
+     matrix *before* propagation at both ends of the step (that is what the code does: _force reads
+     self.rho, and propagate_electronics runs after advance_velocity); never hops *)
+  Definition step_eh (n : nat) (m : list T) (dt : T) (e0 e1 : elec (T:=T)) (lam : list T) (Cm : mat (T:=T)) (s : tstate (T:=T))
+    : tstate (T:=T) * mat (T:=T) :=
+    let f0 := eh_force_code O n (prho s) (eforce e0) in
+    let x1 := advance_position O m (px s) (pv s) f0 dt in
+    let f1 := eh_force_code O n (prho s) (eforce e1) in
+    let v1 := advance_velocity O m (pv s) f0 f1 dt in
+    let W := Wmid O n (eH e0) (eH e1) (etau e0) (etau e1) v1 (pv s) in
+    let rho1 := exp_step O n lam Cm dt (prho s) in
+    (mkT x1 v1 rho1 (eh_surface_hopping (pact s)) (oadd O (ptime s) dt), W).
+
+  (* TrajectoryCum: same pass, the decision is cum_step on the accumulated probability *)
+  Definition step_cum (n : nat) (m : list T) (dt : T) (e0 e1 : elec (T:=T)) (lam : list T) (Cm : mat (T:=T))
+             (s : tstate (T:=T)) (c : cstate (T:=T))
+    : tstate (T:=T) * cstate (T:=T) * T * option (nat * bool) :=
+    let f0 := nth (pact s) (eforce e0) [] in
+    let x1 := advance_position O m (px s) (pv s) f0 dt in
+    let f1 := nth (pact s) (eforce e1) [] in
+    let v1 := advance_velocity O m (pv s) f0 f1 dt in
+    let W := Wmid O n (eH e0) (eH e1) (etau e0) (etau e1) v1 (pv s) in
+    let rho1 := exp_step O n lam Cm dt (prho s) in
+    let g := gkndt O (row O n rho1 (pact s)) (colm O n W (pact s)) (pact s) dt in
+    let '(c', att) := cum_step O c g in
+    match att with
+    | Some (Some t, _, _) =>
+        let '(a', v2, acc) := hop_to_it O m v1 (pact s) t (diagE O n e1) (tget (etau e1) (pact s) t) in
+        (mkT x1 v2 rho1 a' (oadd O (ptime s) dt), c', vsum O g, Some (t, acc))
+    | _ => (mkT x1 v1 rho1 (pact s) (oadd O (ptime s) dt), c', vsum O g, None)
+    end.
+End TrajX.
+
+(* ---- whole runs: the loop of simulate() over any number of passes ---- *)
+Section Run.
+  Context {T : Type} (O : Ops T).
+  (* what each pass of the loop consumes from outside the model: the threshold, the electronics at
+     both ends (model evaluations) and numpy's eigh answer for the propagator *)
+  Record sdata := mkSD { dzeta : T; de0 : elec (T:=T); de1 : elec (T:=T); dlam : list T; dC : mat (T:=T) }.
+  Fixpoint run (n : nat) (m : list T) (dt : T) (poisson : bool) (ds : list sdata) (s : tstate (T:=T))
+    : tstate (T:=T) * list (option (nat * bool)) :=
+    match ds with
+    | [] => (s, [])
+    | d :: ds' =>
+        let '(s1, _, _, att) := step O n m dt poisson (dzeta d) (de0 d) (de1 d) (dlam d) (dC d) s in
+        let '(sf, atts) := run n m dt poisson ds' s1 in (sf, att :: atts)
+    end.
+  (* the active state implied by the attempts alone *)
+  Definition follow (a : nat) (atts : list (option (nat * bool))) : nat :=
+    fold_left (fun a att => match att with Some (t, true) => t | _ => a end) atts a.
+End Run.
